@@ -47,6 +47,10 @@ POSITIONS = {
     "root_ref": ("", "let x: {T} = {V}; let v = &x;", "v", "{P}"),
     "root_field_expr": ("#[derive(Debug, Clone)] struct W {{ f: {T}, g: i32 }}", "let w = W {{ f: {V}, g: 1 }};", "w.f", "{P}"),
     "root_call": ("fn mk() -> {T} {{ {V} }}", "", "mk()", "{P}"),
+    # the asserted expression reaches the macro as a `$v:expr` fragment of a caller's macro_rules! helper (a None-delimited group)
+    # (the pattern is written in the helper: pattern tokens forwarded from another hygiene context cannot see the expansion's
+    # own locals at all, observation O17)
+    "root_via_macro": ("", "let v: {T} = {V};", "v", "{P}"),
     "root_deref": ("", "let b: Box<{T}> = Box::new({V});", "*b", "{P}"),
     "wfield": ("#[derive(Debug, Clone)] struct W {{ f: {T}, g: i32 }}", "let v = W {{ f: {V}, g: 1 }};", "v", "_ {{ f: {P}, .. }}"),
     "tuple_elem": ("", "let v: ({T}, i32) = ({V}, 1);", "v", "({P}, _)"),
@@ -94,7 +98,11 @@ def program(target, pos, pattern, reuse=False):
         after = " let _still_usable = &%s; let _debug = format!(\"{:?}\", _still_usable);" % root
         if root == "v" and not setup.strip().endswith("&x;"):
             after += " let _moved = v;"
-    body = "%s let pat = \"^he\"; let nopat = \"^zz\"; assert_struct!(%s, %s);%s" % (setup, root, pat, after)
+    if pos.endswith("_via_macro"):
+        call = "macro_rules! fwd { ($v:expr) => { assert_struct!($v, %s) } } fwd!(%s);" % (pat, root)
+    else:
+        call = "assert_struct!(%s, %s);" % (root, pat)
+    body = "%s let pat = \"^he\"; let nopat = \"^zz\"; %s%s" % (setup, call, after)
     return (e2e.PRELUDE + COMMON + decl +
             "\nfn main() { std::panic::set_hook(Box::new(|_| {})); run_case(\"c\", || { %s }); }\n" % body)
 
